@@ -218,64 +218,61 @@ func ruleP13(r *Run) {
 		r.Undec("rpc/plugins/push Broker.message / Prosumer.message", 0, "not found")
 		return
 	}
-	// broker: a return inside a `<-X.Done()` / timer clause of a select yields a non-nil batch
+	// broker: every batch Broker.message returns that it did not receive from the responder channel (its own
+	// time-out answer) is non-nil
 	{
 		info := bpkg.TypesInfo
 		k := 0
+		fromChan := map[types.Object]bool{}
+		isRecv := func(e ast.Expr) bool {
+			u, ok := ast.Unparen(e).(*ast.UnaryExpr)
+			return ok && u.Op == token.ARROW
+		}
 		ast.Inspect(bfd.Body, func(m ast.Node) bool {
-			cc, ok := m.(*ast.CommClause)
-			if !ok || cc.Comm == nil {
-				return true
-			}
-			es, ok := cc.Comm.(*ast.ExprStmt)
-			if !ok {
-				return true
-			}
-			u, ok := ast.Unparen(es.X).(*ast.UnaryExpr)
-			if !ok || u.Op != token.ARROW {
-				return true
-			}
-			isTimeout := false
-			if c, ok := ast.Unparen(u.X).(*ast.CallExpr); ok && methodName(c) == "Done" {
-				isTimeout = true
-			}
-			if se, ok := ast.Unparen(u.X).(*ast.SelectorExpr); ok && se.Sel.Name == "C" {
-				isTimeout = true
-			}
-			if !isTimeout {
-				return true
-			}
-			for _, s := range cc.Body {
-				ast.Inspect(s, func(x ast.Node) bool {
-					if _, isLit := x.(*ast.FuncLit); isLit {
-						return false
-					}
-					rs, ok := x.(*ast.ReturnStmt)
-					if !ok || len(rs.Results) != 1 {
-						return true
-					}
-					k++
-					res := ast.Unparen(rs.Results[0])
-					nonNil := false
-					switch v := res.(type) {
-					case *ast.CompositeLit:
-						nonNil = true
-					case *ast.CallExpr:
-						nonNil = IsBuiltin(info, v, "make")
-					case *ast.Ident:
-						// a package-level empty batch
-						if o, ok := info.Uses[v].(*types.Var); ok && o.Parent() == bpkg.Types.Scope() {
-							nonNil = true
+			if as, ok := m.(*ast.AssignStmt); ok && len(as.Rhs) == 1 && isRecv(as.Rhs[0]) {
+				for _, l := range as.Lhs {
+					if id, ok := l.(*ast.Ident); ok {
+						if o := info.ObjectOf(id); o != nil {
+							fromChan[o] = true
 						}
 					}
-					r.Check(nonNil, fmt.Sprintf("batch returned by Broker.message on its own time-out #%d", k), rs.Pos(), "an empty non-nil batch", fmt.Sprintf("Broker.message returns `%s` when its poll times out: nil is what it sends to a poll that was superseded, and the prosumer ends its poll loop on nil - after the first idle period the client would stop polling while staying subscribed", types.ExprString(res)))
-					return true
-				})
+				}
 			}
 			return true
 		})
+		ast.Inspect(bfd.Body, func(m ast.Node) bool {
+			if _, isLit := m.(*ast.FuncLit); isLit {
+				return false
+			}
+			rs, ok := m.(*ast.ReturnStmt)
+			if !ok || len(rs.Results) != 1 {
+				return true
+			}
+			res := ast.Unparen(rs.Results[0])
+			if isRecv(res) {
+				return true
+			}
+			if o := identObj(info, res); o != nil && fromChan[o] {
+				return true
+			}
+			k++
+			nonNil := false
+			switch v := res.(type) {
+			case *ast.CompositeLit:
+				nonNil = true
+			case *ast.CallExpr:
+				nonNil = IsBuiltin(info, v, "make")
+			case *ast.Ident:
+				// a package-level empty batch
+				if o, ok := info.Uses[v].(*types.Var); ok && o.Parent() == bpkg.Types.Scope() {
+					nonNil = true
+				}
+			}
+			r.Check(nonNil, fmt.Sprintf("batch returned by Broker.message on its own time-out #%d", k), rs.Pos(), "an empty non-nil batch", fmt.Sprintf("Broker.message answers a poll with `%s` of its own accord (not a batch received from the responder channel): nil is what it sends to a poll that was superseded, and the prosumer ends its poll loop on nil - after the first idle period the client would stop polling while staying subscribed", types.ExprString(res)))
+			return true
+		})
 		if k == 0 {
-			r.Undec("batch returned by Broker.message on its own time-out", bfd.Pos(), "no return inside a time-out clause of the parked select found")
+			r.Undec("batch returned by Broker.message on its own time-out", bfd.Pos(), "no return of a batch that was not received from the responder found")
 		}
 	}
 	// prosumer: inside the poll loop, a return on the success path is under `batch == nil`
